@@ -741,6 +741,31 @@ class Interp(object):
         finally:
             self.state, self.depth, self._decisions, self._dpos = saved
 
+    def match_pattern(self, pat, subj, fr):
+        """Does ``subj`` match the structural pattern (binding its capture names)?  Value, singleton, capture/wildcard, or-, and
+        class patterns without or with one positional sub-pattern (``str()``, ``int() | float()``, ``str(text)``)."""
+        from . import absmodels
+        if isinstance(pat, ast.MatchValue):
+            return self.truth(absmodels.rich_compare(self, 'eq', subj, self.expr(pat.value, fr), src(pat.value)), 'case %s' % src(pat.value))
+        if isinstance(pat, ast.MatchSingleton):
+            return absmodels.identical(self, subj, Const(pat.value), 'case %r' % (pat.value,))
+        if isinstance(pat, ast.MatchAs):
+            if pat.pattern is not None and not self.match_pattern(pat.pattern, subj, fr):
+                return False
+            if pat.name is not None:
+                fr.vars[pat.name] = subj
+            return True
+        if isinstance(pat, ast.MatchOr):
+            return any(self.match_pattern(p_, subj, fr) for p_ in pat.patterns)
+        if isinstance(pat, ast.MatchClass) and not pat.kwd_patterns and len(pat.patterns) <= 1:
+            tv = self.expr(pat.cls, fr)
+            if not absmodels.isinstance_(self, subj, tv, src(pat.cls)):
+                return False
+            if pat.patterns:
+                return self.match_pattern(pat.patterns[0], subj, fr)
+            return True
+        raise Unmodelled('match pattern %s' % type(pat).__name__)
+
     def decorated(self, fv, node, fr):
         """Apply the decorators of ``node`` (innermost first) to the function value; registration decorators return it unchanged."""
         for d in reversed(node.decorator_list):
@@ -1051,6 +1076,12 @@ class Interp(object):
             holder.__dict__.setdefault('nonlocals', set()).update(s.names)
         elif isinstance(s, (ast.Global, ast.Import, ast.ImportFrom)):
             pass
+        elif hasattr(ast, 'Match') and isinstance(s, ast.Match):
+            subj = self.expr(s.subject, fr)
+            for case in s.cases:
+                if self.match_pattern(case.pattern, subj, fr) and (case.guard is None or self.truth(self.expr(case.guard, fr), src(case.guard))):
+                    self.block(case.body, fr)
+                    break
         elif isinstance(s, ast.With):
             self.imprecise('with statement')
             self.block(s.body, fr)
